@@ -86,19 +86,36 @@ Fixpoint run_obs (cfg : config) (st : state) (evs : list (event * outcome)) : op
            end
   end.
 
-(* (is_min, max_t, per_bracket, rush), rung levels, brackets, observed events, information_for_rungs() at the end *)
-Definition seq_case := ((bool * Z * bool * option Z) * list Z * nat * list (event * outcome) * list (Z * nat))%type.
+(* successive_halving_rung_levels: (rung_levels, grace_period, reduction_factor, rung_increment, max_t, implementation's
+   result or None = AssertionError) *)
+Definition lv_params := (option (list Z) * Z * option Z * option Z)%type.
+Definition levels_case := (lv_params * Z * option (list Z))%type.
+Definition model_levels (p : lv_params) (max_t : Z) : option (list Z) :=
+  let '(rl, grace, rf, incr) := p in sh_rung_levels rl grace rf incr max_t.
+Definition chk_levels (c : levels_case) : bool :=
+  let '(p, max_t, impl) := c in opt_eqb (list_eqb Z.eqb) (model_levels p max_t) impl.
+
+(* (is_min, max_t, per_bracket, rush), construction parameters (None: non-integer reduction factor, the
+   implementation's levels are used), implementation's rung levels, brackets, observed events,
+   information_for_rungs() at the end (level, entries, prom_quant) *)
+Definition seq_case := ((bool * Z * bool * option Z) * option lv_params * list Z * nat * list (event * outcome)
+                        * list (Z * nat * Q))%type.
 Definition chk_seq (c : seq_case) : bool :=
-  let '((is_min, max_t, pb, rush), levels, brackets, evs, info) := c in
+  let '((is_min, max_t, pb, rush), params, levels, brackets, evs, info) := c in
   let cfg := {| c_mode := md_of is_min; c_max_t := max_t; c_per_bracket := pb; c_rush := rush |} in
+  match params with
+  | Some p => opt_eqb (list_eqb Z.eqb) (model_levels p max_t) (Some levels)
+  | None => true
+  end &&
   match run_obs cfg (init_state cfg levels brackets) evs with
   | None => false
   | Some st =>
       match s_sys st with
       | [] => false
       | sys :: _ =>
-          list_eqb (fun a b => Z.eqb (fst a) (fst b) && Nat.eqb (snd a) (snd b))
-                   (map (fun rg => (r_level rg, length (r_data rg))) (rs_rungs sys)) info
+          list_eqb (fun a b => Z.eqb (fst (fst a)) (fst (fst b)) && Nat.eqb (snd (fst a)) (snd (fst b)) &&
+                               Qle_bool (Qabs' (snd a - snd b)) (1 # 1000000000000))
+                   (map (fun rg => (r_level rg, length (r_data rg), r_quant rg)) (rs_rungs sys)) info
       end
   end.
 """
@@ -423,9 +440,12 @@ def run_sequence(ctx, spec, events=None):
                 if next_id < spec["total"]:
                     start_new()
 
-    info = [(int(a), int(b)) for a, b, _ in sch.terminator.information_for_rungs()]
+    info = [(int(a), int(b), float(c)) for a, b, c in sch.terminator.information_for_rungs()]
     # enter-once / own-levels-only, observed through the public rung sizes of system 0
-    for lv, cnt in info:
+    for lv, cnt, pq in info:
+        if abs(pq - quant[lv]) > 1e-12:
+            violations.append(("promotion quantile of rung level %d is %r, expected level/next level = %r" % (
+                lv, pq, quant[lv]), "promotion_quantile"))
         mine = len(store.get((0, lv), []))
         if mine != cnt:
             violations.append(("rung level %d of system 0 holds %d entries, but %d distinct trials reported at it as "
@@ -465,13 +485,94 @@ def seq_term(spec, res):
     cfg = "(%s, %s, %s, %s)" % (blit(spec["mode"] == "min"), zlit(spec["max_t"]), blit(spec.get("per_bracket", False)),
                                 optlit(nthr, zlit))
     evs = lst(["(%s, %s)" % (event_term(e), outcome_term(e["outcome"])) for e in res["events"]])
-    info = lst(["(%s, %s)" % (zlit(a), natlit(b)) for a, b in res["info"]])
-    return "((%s, %s, %s, %s, %s) : seq_case)" % (cfg, lst([zlit(x) for x in res["levels"]]), natlit(spec["brackets"]), evs, info)
+    info = lst(["(%s, %s, %s)" % (zlit(a), natlit(b), q(c)) for a, b, c in res["info"]])
+    return "((%s, %s, %s, %s, %s, %s) : seq_case)" % (cfg, optlit(params_of(spec), params_term), lst([zlit(x) for x in res["levels"]]),
+                                                    natlit(spec["brackets"]), evs, info)
+
+
+def params_of(spec):
+    """construction parameters as the scheduler passes them to successive_halving_rung_levels; None for a
+    non-integer reduction factor (float power and rounding are not modelled)"""
+    if spec.get("rung_levels") is not None:
+        return dict(rung_levels=list(spec["rung_levels"]), grace_period=1, reduction_factor=None, rung_increment=None)
+    rf, incr = spec.get("reduction_factor"), spec.get("rung_increment")
+    if rf is None and incr is None:
+        rf = 3
+    if rf is not None and int(rf) != rf:
+        return None
+    return dict(rung_levels=None, grace_period=spec["grace_period"], reduction_factor=None if rf is None else int(rf),
+                rung_increment=incr)
+
+
+def params_term(p):
+    return "(%s, %s, %s, %s)" % (optlit(p["rung_levels"], lambda l: lst([zlit(x) for x in l])), zlit(p["grace_period"]),
+                                 optlit(p["reduction_factor"], zlit), optlit(p["rung_increment"], zlit))
+
+
+# ------------------------------------------------------------------------------------------------
+# unit step: successive_halving_rung_levels
+# ------------------------------------------------------------------------------------------------
+def gen_levels_case(rng):
+    max_t = rng.choice([2, 4, 8, 9, 10, 16, 27, 50, 64, 81, 100, rng.randint(1, 120), rng.randint(1, 120)])
+    style = rng.choice(["rf", "rf", "rf", "rf", "incr", "incr", "incr", "explicit", "explicit", "explicit", "both", "neither"])
+    c = dict(kind="levels", max_t=max_t, rung_levels=None,
+             grace_period=rng.choice([0, 1, 1, 1, 1, 1, 2, 2, 3, 3, 5, rng.randint(1, 12)]),
+             reduction_factor=None, rung_increment=None)
+    if style in ("rf", "both"):
+        c["reduction_factor"] = rng.choice([1, 2, 2, 2, 3, 3, 3, 4, 4, 5, 7, 10])
+    if style in ("incr", "both"):
+        c["rung_increment"] = rng.choice([0, 1, 1, 1, 2, 2, 3, 5, 9, 40])
+    if style == "explicit":
+        k = rng.choice([0, 1, 2, 2, 3, 4, 6])
+        lv = sorted(rng.sample(range(1, max(max_t, k) + 2), k))
+        y = rng.random()
+        if y < 0.1 and lv:
+            lv[rng.randrange(len(lv))] = 0
+        elif y < 0.2 and len(lv) >= 2:
+            i = rng.randrange(len(lv) - 1)
+            lv[i + 1] = lv[i] if rng.random() < 0.5 else lv[i] - 1
+        elif y < 0.45 and lv:
+            lv[-1] = max_t
+            lv = sorted(set(lv)) if rng.random() < 0.7 else lv
+        c["rung_levels"] = lv
+    return c
+
+
+def run_levels_cases(ctx, cases_in):
+    from syne_tune.optimizer.schedulers.utils.successive_halving import successive_halving_rung_levels
+    U.quiet()
+    terms = []
+    for c in cases_in:
+        try:
+            impl = successive_halving_rung_levels(None if c["rung_levels"] is None else list(c["rung_levels"]), c["grace_period"],
+                                                  c["reduction_factor"], c["rung_increment"], c["max_t"])
+            impl = [int(x) for x in impl]
+        except AssertionError:
+            impl = None
+        ctx.count(("levels", c), nontrivial=impl is not None and len(impl) >= 2)
+        ctx.h("levels_kind", "explicit" if c["rung_levels"] is not None else ("rf" if c["reduction_factor"] is not None else "incr"))
+        ctx.h("levels_result", "AssertionError" if impl is None else min(len(impl), 8))
+        if impl is not None:
+            # independent checker: strictly increasing positive levels below max_t, equal to the documented formula
+            want = U.expected_rung_levels(c)
+            ok = all(a < b for a, b in zip(impl, impl[1:])) and all(1 <= x < c["max_t"] for x in impl) and len(impl) >= 1
+            if not ok or (want is not None and want != impl):
+                ctx.violation("property", "successive_halving_rung_levels gives %r, expected %r" % (impl, want), case=c,
+                              signature=dict(function="successive_halving_rung_levels", defect="rung_levels"))
+        terms.append("((%s, %s, %s) : levels_case)" % (params_term(c), zlit(c["max_t"]),
+                                                      optlit(impl, lambda l: lst([zlit(x) for x in l]))))
+    if terms:
+        for i in ctx.coq_bad_cases("levels", IMPORTS, PRELUDE, "chk_levels", terms, shard=300):
+            ctx.violation("correspondence", "model sh_rung_levels differs from successive_halving_rung_levels",
+                          case=cases_in[i], failing_input=False,
+                          broken="correspondence chk_levels (model/Rung.v sh_rung_levels)")
 
 
 def run(ctx, replay=None):
     ctx.rule = ("cases: (a) Rung.add/quantile on metric lists of length 0..60 (grids with ties, duplicates, signed floats), "
-                "both modes, q = level/next level; non-trivial = >= 3 entries with >= 2 distinct values; "
+                "both modes, q = level/next level; non-trivial = >= 3 entries with >= 2 distinct values; (a') "
+                "successive_halving_rung_levels on grids of grace_period / integer reduction_factor / rung_increment / "
+                "explicit lists (valid and invalid) / max_t; non-trivial = >= 2 levels returned; "
                 "(b) event scripts on the real HyperbandScheduler(type=stopping|rush_stopping, searcher=random): grace "
                 "period / reduction factor in {2,3,4,2.5} / rung increment / explicit rung list, max_t <= 81, brackets "
                 "1..4 forced through scheduler.bracket_distribution, shared or per-bracket rung systems, 2..8 concurrent "
@@ -487,6 +588,13 @@ def run(ctx, replay=None):
     else:
         qcases = []
     run_quant_cases(ctx, qcases)
+    if replay is None:
+        lcases = [gen_levels_case(rng) for _ in range(ctx.n(600, 6000))]
+    elif replay.get("kind") == "levels":
+        lcases = [replay]
+    else:
+        lcases = []
+    run_levels_cases(ctx, lcases)
 
     # ---------------- sequences ----------------------------------------------------------------
     if replay is None:
